@@ -34,6 +34,16 @@ pub fn scenarios(quick: bool) -> Vec<Scenario> {
             sub_keys: vec!["k"],
         });
     }
+    // the same on a key that holds no value yet (an implementation may treat the watcher list of an absent key
+    // differently, e.g. release it when its last watcher leaves)
+    for other in [s(&["unwatch n"]), s(&["unwatch-all"]), s(&["<disconnect>"])] {
+        out.push(Scenario {
+            name: "subscribe-vs-other-unsubscribe-on-absent-key",
+            setup: Setup { strategy: "none", init: s(&["set j 0"]), session_init: vec![vec![tok()], vec![tok(), "watch n".into()], vec![tok()]], check_replica: false },
+            programs: vec![s(&["watch n"]), other, s(&["set n a1"])],
+            sub_keys: vec!["n"],
+        });
+    }
     // subscribed from the start; another client subscribes and leaves; writer writes twice
     for other in [s(&["watch k", "unwatch k"]), s(&["watch k", "unwatch-all"]), s(&["watch k", "<disconnect>"]), s(&["watch j", "unwatch-all"])] {
         out.push(Scenario {
